@@ -144,16 +144,19 @@ class C05A(DevProp):
             dz = weird[(i // len(ranges)) % len(weird)] if i % 3 == 0 else rng.choice([0.0, 0.1, 0.25])
             flip = rng.random() < 0.4
             dzc = (mn == 0) and rng.random() < 0.5
+            krx = rng.choice([0, 127, 60])
             analogs = [agen.analog(agen.ABS_X, "cc", cc=rng.choice([0, 7, 119]), ccneg=rng.choice([1, 118]), off=rng.choice([0, 15]), offneg=rng.choice([0, 15]),
                                    flip=flip, bidi=True, dzc=dzc),
                        agen.analog(agen.ABS_Y, "cc", cc=rng.choice([2, 64]), off=rng.choice([0, 9]), flip=flip, dzc=dzc),
                        agen.analog(agen.ABS_Z, "pitch_bend", off=rng.choice([0, 15]), flip=not flip, dzc=dzc),
-                       agen.analog(agen.ABS_RX, "key", note=rng.choice([0, 127, 60]), noteneg=rng.choice([0, 127]), off=15, offneg=1, bidi=True, flip=flip, dzc=dzc),
+                       agen.analog(agen.ABS_RX, "key", note=krx, noteneg=rng.choice([0, 127]), off=15, offneg=1, bidi=True, flip=flip, dzc=dzc),
                        # an axis that emulates ACTION keys (a hat switching octaves, a trigger firing panic)
                        agen.analog(agen.ABS_RY, "action", act=rng.choice(["octave_up", "semitone_up", "channel_up", "panic", "mapping_up"]),
                                    actneg=rng.choice(["octave_down", "semitone_down", "channel_down", "panic", "mapping_down"]), flip=flip, dzc=dzc)]
             absl = [{"code": c, "min": mn, "max": mx} for c in (agen.ABS_X, agen.ABS_Y, agen.ABS_Z, agen.ABS_RX, agen.ABS_RY)]
+            # a note key on the very (channel, pitch) of the emulating axis' positive direction, every collision mode: a second source on one pitch
             cfg = agen.base_cfg(analogs, defdz=[{"sub": "", "bits": str(bits(dz))}], actions=[{"code": 59, "action": "octave_up"}, {"code": 60, "action": "octave_down"}, {"code": 63, "action": "channel_up"}],
+                                keys=[{"sub": "", "code": 30, "note": krx, "off": 15}], cmode=devgen.CMODES[i % 4],
                                 channel=rng.choice([1, 16]), velocity=rng.choice([1, 127]))
             vals = sorted({mn, mn + 1, mx, mx - 1, 0 if mn <= 0 <= mx else mn, (mn + mx) // 2, (mn + mx) // 2 + 1} | {rng.randint(mn, mx) for _ in range(6)} |
                           {v for v in (int(0.495 * mx), int(0.495 * mn), mn + int((mx - mn) * 0.7475), mn + int((mx - mn) * 0.2525)) if mn <= v <= mx})
@@ -185,6 +188,8 @@ class C05A(DevProp):
                     if j % 9 == 4:
                         out += tap(65) if (j // 9) % 2 == 0 else tap(66)
                 ev = out + tap(65) + ev[:25] + [k(65, 1), k(66, 1), k(65, 0), k(66, 0)] + ev[:25]
+            ev += [k(30, 1), {"t": "a", "sub": "", "code": agen.ABS_RX, "val": mx}, {"t": "a", "sub": "", "code": agen.ABS_RX, "val": (mn + mx) // 2 if mn < 0 else mn + (mx - mn) // 2},
+                   k(30, 0), {"t": "a", "sub": "", "code": agen.ABS_RX, "val": mn}, k(30, 1), {"t": "a", "sub": "", "code": agen.ABS_RX, "val": (mn + mx) // 2 if mn < 0 else mn + (mx - mn) // 2}, k(30, 0)]
             # an up/down pair held by keys while the axes move (the action axis consults the pair detection first)
             ev += [k(59, 1), k(60, 1)] + [{"t": "a", "sub": "", "code": code, "val": v} for v in (mx, mn, (mn + mx) // 2) for code in (agen.ABS_RY, agen.ABS_RX, agen.ABS_X)] + [k(59, 0), k(60, 0)]
             cases.append({"cfg": cfg, "abs": absl, "events": ev, "tag": "axes[%d,%d]" % (mn, mx)})
